@@ -90,12 +90,15 @@ def prune_state(e, s, under, arrays=True, ceil=False, bare=False):
     return e
 
 
-def settle_state(e, s, kinds):
+def settle_state(e, s, kinds, under=False):
     """The state with every scalar / JoinedString text replaced by what its own set(text) makes of it
-    (what from_flat necessarily does to a leaf).  Used only to state what the leaf-level known findings
-    predict; for settled leaves it is the identity."""
+    (what from_flat necessarily does to a leaf whose pair arrives).  Below a pruning List (`under`) an
+    empty-valued pair never arrives, so such a leaf stays as a fresh element has it.  Used only to state
+    what the leaf-level known findings predict; for settled leaves it is the identity."""
     t = s["t"]
     if t == "leaf":
+        if under and e["leaf"] == "":
+            return e
         probe = fl.kind_class(kinds[s["k"]])()
         try:
             probe.set(e["leaf"])
@@ -103,6 +106,8 @@ def settle_state(e, s, kinds):
             return e
         return {"leaf": probe.u}
     if t == "joined":
+        if under and e["joined"][0] == "":
+            return {"joined": ["", []]}
         probe = fl.kind_class(kinds[s["k"]])()
         try:
             probe.set(e["joined"][0])
@@ -111,11 +116,11 @@ def settle_state(e, s, kinds):
         return {"joined": [probe.u, [{"leaf": m.u} for m in probe]]}
     if t in ("dict", "compound"):
         fields = {f["name"]: f for f in s["fields"]}
-        return {"dict": [[k, settle_state(v, fields[k], kinds)] for k, v in e["dict"]]}
+        return {"dict": [[k, settle_state(v, fields[k], kinds, under)] for k, v in e["dict"]]}
     if t == "list":
-        return {"list": [settle_state(m, s["member"], kinds) for m in e["list"]]}
+        return {"list": [settle_state(m, s["member"], kinds, under or s["prune"]) for m in e["list"]]}
     if t == "array":
-        return {"array": [settle_state(m, s["member"], kinds) for m in e["array"]]}
+        return {"array": [settle_state(m, s["member"], kinds, under) for m in e["array"]]}
     return e
 
 
@@ -126,6 +131,13 @@ def leaf_finding(types):
         return "KF-C01-c"
     if types and types <= {"Joined"}:
         return "KF-C01-f"
+    if types and types <= {"Boolean"}:
+        return "KF-C01-h"
+    # several leaf-level findings at work in one case: the prediction covers all of them at once
+    known = {"Time": "KF-C01-b", "Date": "KF-C01-b", "DateTime": "KF-C01-b", "Float": "KF-C01-c",
+             "Joined": "KF-C01-f", "Boolean": "KF-C01-h"}
+    if types and all(t in known for t in types):
+        return sorted(known[t] for t in types)[0]
     return None
 
 
